@@ -104,6 +104,9 @@ type grpcFaultInjector struct {
 	mu   sync.RWMutex
 	m    map[string]*fault
 	hits atomic.Int64
+	// gates: the proxy's existence check for a digest with an armed gate (gate.go) is held
+	// until the harness releases it, or ends with the context's status if the caller goes first.
+	gates *gateSet
 }
 
 const findMissingMethod = "/build.bazel.remote.execution.v2.ContentAddressableStorage/FindMissingBlobs"
@@ -119,6 +122,11 @@ func (g *grpcFaultInjector) set(hash string, f *fault) {
 func (g *grpcFaultInjector) unary(ctx context.Context, method string, req, reply any, cc *grpc.ClientConn, invoker grpc.UnaryInvoker, opts ...grpc.CallOption) error {
 	if method == findMissingMethod {
 		if fr, ok := req.(*pb.FindMissingBlobsRequest); ok {
+			for _, d := range fr.GetBlobDigests() {
+				if !g.gates.wait(d.GetHash(), ctx.Done()) {
+					return status.FromContextError(ctx.Err()).Err()
+				}
+			}
 			var f *fault
 			g.mu.RLock()
 			for _, d := range fr.GetBlobDigests() {
